@@ -143,7 +143,14 @@ func callAPI(ebr *EndpointBridgeRequest) (record.Record, error) {
 	}
 
 	// Create request and response objects.
-	r := httptest.NewRequest(ebr.Method, u.String(), bytes.NewBuffer(ebr.Data))
+	// httptest.NewRequest panics on input it cannot turn into a request line
+	// (e.g. a key with a raw query containing a space, or an invalid method).
+	// Keys and methods come from database API clients, so report an error instead.
+	r, err := http.NewRequest(ebr.Method, u.String(), bytes.NewBuffer(ebr.Data))
+	if err != nil {
+		return nil, fmt.Errorf("failed to build bridged request: %w", err)
+	}
+	r.RequestURI = u.String()
 	r.RemoteAddr = endpointBridgeRemoteAddress
 	if ebr.MimeType != "" {
 		r.Header.Set("Content-Type", ebr.MimeType)
